@@ -1,5 +1,6 @@
 //! cosetmc: bounded exhaustive exploration of google/coset against independent reference models.
 
+mod alloc_count;
 mod gen;
 mod mc;
 mod oracle;
@@ -10,6 +11,9 @@ mod spaces;
 mod subject;
 
 use mc::{Report, Tier};
+
+#[global_allocator]
+static ALLOC: alloc_count::Counting = alloc_count::Counting;
 
 fn usage() -> ! {
     eprintln!("usage: cosetmc run <ID> <quick|thorough> | replay <file> | selftest");
